@@ -5,7 +5,7 @@ def check(ctx):
     kernel.run_tables(ctx, 'C04', [
         ('Interruption', '__init__'), ('Interruption', '_interrupt'), ('Process', 'interrupt'), ('Process', '__init__'),
         ('Initialize', '__init__'), ('Process', '_resume'), ('Interrupt', 'cause'), ('Interrupt', '__init__'),
-        ('Event', 'triggered'),
+        ('Event', 'triggered'), ('Process', 'is_alive'), ('Process', 'target'), ('Event', 'processed'),
     ])
     whomay.schedule_sites(ctx, 'C04')
     whomay.priority_constants(ctx, 'C04')
